@@ -229,6 +229,9 @@ impl Check for C02 {
         let keyspaces = (0..nks).map(|i| format!("ks{i}")).collect();
         serde_json::to_value(Scenario { base_ms: cfg.base_ms, store, events, keyspaces, origin: "random".into() }).unwrap()
     }
+    fn isolate(&self, scenario: &Value) -> bool {
+        scenario.get("cluster").is_some()
+    }
     fn execute(&self, scenario: &Value) -> Outcome {
         if let Some(c) = scenario.get("cluster") {
             let sc: crate::e2::c01::Scenario = match serde_json::from_value(c.clone()) {
